@@ -237,8 +237,14 @@ func (m *Monitors) notifyChecks() {
 }
 
 func (m *Monitors) mainLoopParked(n *Node) bool {
+	// ... of the loop that belongs to its state: the heartbeat fast path changes the state on a transport thread, and
+	// the main loop only leaves leaderLoop (and announces the loss) at its next wake-up - until then it is in transit
+	want := map[raft.RaftState]string{raft.Follower: "@runFollower#1", raft.Candidate: "@runCandidate#1", raft.Leader: "@leaderLoop#8"}[n.r.State()]
+	if want == "" {
+		return false
+	}
 	for _, s := range m.w.sched.Live(func(g int) bool { return g == n.group() }) {
-		if strings.Contains(s, "@runFollower#1") || strings.Contains(s, "@runCandidate#1") || strings.Contains(s, "@leaderLoop#8") {
+		if strings.Contains(s, want) {
 			return true
 		}
 	}
